@@ -112,7 +112,70 @@ def expected_close : List String := [
   "..break",
   "f.out = nil"]
 
-theorem close_eq : Nsq.Gen.ToolsToFile.close = expected_close := rfl
+/-- with fix F44: `f.out = nil` also on the successful-move path -/
+def expected_close_fixed : List String := [
+  "if f.out == nil",
+  ".return",
+  "if f.gzipWriter != nil",
+  ".err := f.gzipWriter.Close()",
+  ".if err != nil",
+  "..os.Exit(1)",
+  "err := f.out.Sync()",
+  "if err != nil",
+  ".os.Exit(1)",
+  "err = f.out.Close()",
+  "if err != nil",
+  ".os.Exit(1)",
+  "if f.opts.WorkDir != f.opts.OutputDir",
+  ".src := f.out.Name()",
+  ".dst := filepath.Join(f.opts.OutputDir, strings.TrimPrefix(src, f.opts.WorkDir))",
+  ".err := exclusiveRename(src, dst)",
+  ".if err == nil",
+  "..f.out = nil",
+  "..return",
+  ".else",
+  "..if !os.IsExist(err)",
+  "...os.Exit(1)",
+  "._, filenameTmpl := filepath.Split(f.filename)",
+  ".dstDir, _ := filepath.Split(dst)",
+  ".dstTmpl := filepath.Join(dstDir, filenameTmpl)",
+  ".for i := f.rev + 1;; i++",
+  "..dst := strings.Replace(dstTmpl, \"<REV>\", fmt.Sprintf(\"-%06d\", i), -1)",
+  "..err := exclusiveRename(src, dst)",
+  "..if err != nil",
+  "...if os.IsExist(err)",
+  "....continue",
+  "...os.Exit(1)",
+  "..break",
+  "f.out = nil"]
+
+/-- does `pat` occur in `s`? (characters) -/
+def occursIn (pat s : List Char) : Bool :=
+  match s with
+  | [] => pat.isPrefixOf []
+  | c :: cs => pat.isPrefixOf (c :: cs) || occursIn pat cs
+
+/-- the effect calls of a skeleton, in source order: which of the given call texts each statement contains -/
+def effectCalls (calls : List String) (skel : List String) : List String :=
+  skel.filterMap fun st => calls.find? fun c => occursIn c.toList st.toList
+
+def closeCalls : List String :=
+  ["f.gzipWriter.Close()", "f.out.Sync()", "f.out.Close()", "exclusiveRename(", "os.Exit(1)"]
+
+/-- **Semantic core of `Close()`** (relaxed in round 6 from equality with one frozen skeleton, which a harmless
+rewrite — e.g. clearing `f.out` in a `defer` instead of fix F44's extra statement — broke although the correspondence
+leg covers every path of `Close()`): the effect calls in source order are gzip close (error → exit), fsync (→ exit),
+close (→ exit), the optimistic exclusive rename (non-EEXIST error → exit), the revision-bump rename (non-EEXIST → exit).
+Whether `f.out` is cleared after a successful move (model parameter `Cfg.closeClears`, fix F44) is *probed on the real
+function* by the harness; both known shapes `expected_close` / `expected_close_fixed` have this core. -/
+theorem close_eq :
+    effectCalls closeCalls Nsq.Gen.ToolsToFile.close =
+      ["f.gzipWriter.Close()", "os.Exit(1)", "f.out.Sync()", "os.Exit(1)", "f.out.Close()", "os.Exit(1)",
+       "exclusiveRename(", "os.Exit(1)", "exclusiveRename(", "os.Exit(1)"] := by
+  decide
+
+theorem close_known_shapes_have_core :
+    effectCalls closeCalls expected_close = effectCalls closeCalls expected_close_fixed := by decide
 
 def expected_write : List String := [
   "n, err := f.writer.Write(p)",
@@ -264,10 +327,8 @@ theorem sync_order :
 
 /-- in `Close`: gzip close, fsync, close, and only then the exclusive rename -/
 theorem close_order :
-    pos ".err := f.gzipWriter.Close()" close < pos "err := f.out.Sync()" close
-    ∧ pos "err := f.out.Sync()" close < pos "err = f.out.Close()" close
-    ∧ pos "err = f.out.Close()" close < pos ".err := exclusiveRename(src, dst)" close
-    ∧ pos ".err := exclusiveRename(src, dst)" close < close.length := by
+    (effectCalls closeCalls Nsq.Gen.ToolsToFile.close).filter (· != "os.Exit(1)") =
+      ["f.gzipWriter.Close()", "f.out.Sync()", "f.out.Close()", "exclusiveRename(", "exclusiveRename("] := by
   rw [close_eq]; decide
 
 /-- `exclusiveRename` is link-then-remove (never rename(2), which would replace the target) -/
@@ -275,5 +336,57 @@ theorem exclusiveRename_is_link_then_remove :
     exclusiveRename = ["err := os.Link(src, dst)", "if err != nil", ".return err", "err = os.Remove(src)",
                        "if err != nil", ".return err", "return nil"] := by
   rw [exclusiveRename_eq]; rfl
+
+/-! ### TopicDiscoverer (model `Nsq.Model.ToFileDisc`; `isTopicAllowed` is tied by translation in `Nsq.Tie.ToolsToFileFn`) -/
+
+def expected_updateTopics : List String := [
+  "range topics",
+  ".if _, ok := t.topics[topic]; ok",
+  "..continue",
+  ".if !t.isTopicAllowed(topic)",
+  "..continue",
+  ".fl, err := NewFileLogger(t.logf, t.opts, topic, t.cfg)",
+  ".if err != nil",
+  "..continue",
+  ".t.topics[topic] = fl",
+  ".t.wg.Add(1)",
+  ".go func(fl *FileLogger) { fl.router() t.wg.Done() }(fl)"]
+
+theorem updateTopics_eq : Nsq.Gen.ToolsToFile.updateTopics = expected_updateTopics := rfl
+
+def expected_discovererRun : List String := [
+  "var ticker <-chan time.Time",
+  "if len(t.opts.Topics) == 0",
+  ".ticker = time.Tick(t.opts.TopicRefreshInterval)",
+  "t.updateTopics(t.opts.Topics)",
+  "label forloop",
+  "for",
+  ".select",
+  "..case <-ticker",
+  "...newTopics, err := t.ci.GetLookupdTopics(t.opts.NSQLookupdHTTPAddrs)",
+  "...if err != nil",
+  "....continue",
+  "...t.updateTopics(newTopics)",
+  "..case <-t.termChan",
+  "...range t.topics",
+  "....close(fl.termChan)",
+  "...break forloop",
+  "..case <-t.hupChan",
+  "...range t.topics",
+  "....fl.hupChan <- true",
+  "t.wg.Wait()"]
+
+theorem discovererRun_eq : Nsq.Gen.ToolsToFile.discovererRun = expected_discovererRun := rfl
+
+/-- in `run`: the termination requests go out, the loop is left, and only then `wg.Wait()` (the routers
+are awaited, not abandoned); the router goroutine is registered with the WaitGroup before it starts -/
+theorem discoverer_term_then_wait :
+    pos "....close(fl.termChan)" discovererRun < pos "...break forloop" discovererRun
+    ∧ pos "...break forloop" discovererRun < pos "t.wg.Wait()" discovererRun
+    ∧ pos "t.wg.Wait()" discovererRun < discovererRun.length
+    ∧ pos ".t.topics[topic] = fl" updateTopics < pos ".t.wg.Add(1)" updateTopics
+    ∧ pos ".t.wg.Add(1)" updateTopics < pos ".go func(fl *FileLogger) { fl.router() t.wg.Done() }(fl)" updateTopics
+    ∧ pos ".go func(fl *FileLogger) { fl.router() t.wg.Done() }(fl)" updateTopics < updateTopics.length := by
+  rw [discovererRun_eq, updateTopics_eq]; decide
 
 end Nsq.Tie.ToolsToFile
